@@ -316,3 +316,22 @@ unsafe impl Allocator for Arena {
         Ok(NonNull::slice_from_raw_parts(ptr, len))
     }
 }
+
+/// Verification hooks (feature `verif-hooks`): read-only views of arena internals.
+#[cfg(feature = "verif-hooks")]
+impl Arena {
+    #[must_use]
+    pub fn verif_commit(&self) -> usize {
+        self.commit.get()
+    }
+
+    #[must_use]
+    pub fn verif_capacity(&self) -> usize {
+        self.capacity
+    }
+
+    #[must_use]
+    pub fn verif_base(&self) -> *const u8 {
+        self.base.as_ptr()
+    }
+}
